@@ -12,6 +12,12 @@ open SaModel SaModel.Spec
 @[simp] theorem ok_ne_unsupported {α} {d : α} : (.ok d = (unsupported : R α)) = False := by
   simp [unsupported, fail]
 
+@[simp] theorem mustFail_ne_ok {w : String} {x : Option DVal} : (mustFail w = Except.ok x) = False := by
+  simp [mustFail, fail]
+
+@[simp] theorem mustFail_ne_must {w : String} {d : DVal} : (mustFail w = must d) = False := by
+  simp [mustFail, fail, must]
+
 theorem must_inj {d d' : DVal} (h : must d = must d') : d = d' := by
   simp only [must, Except.ok.injEq, Option.some.injEq] at h; exact h
 
